@@ -9,7 +9,8 @@ FewSettings == {S("0.5", 0, FALSE, "none", 0), S("auto", 2, FALSE, "none", 2), S
 Fields4 == {"none", "one", "two", "small"}
 \* times in tenths; sequences that are increasing, repeated, decreasing, and restarting (two runs into one tracker)
 TimesA == {<<0, 5, 10, 15>>, <<20, 30, 0, 10>>, <<0, 5, 0, 5>>, <<7, 7, 3, 0 - 4>>}
-TimesB == {<<0, 5, 10, 15>>, <<20, 0 - 4, 30, 10>>, <<0 - 5, 0, 5, 10>>}
+\* <<3, 3, ..>>: the same time twice in a row (a simulation continued with the same tracker hands over its start time again)
+TimesB == {<<0, 5, 10, 15>>, <<20, 0 - 4, 30, 10>>, <<0 - 5, 0, 5, 10>>, <<3, 3, 8, 8>>}
 AllSources == {"none", "index", "callable"}
 NoSource == {"none"}
 AllMethods == {"structure_factor_mean", "structure_factor_maximum", "droplet_detection"}
